@@ -117,6 +117,15 @@ theorem hexSegs_good (ps : List Str) (h : ∀ p ∈ ps, isHexGroup p = true) : (
   obtain ⟨p, hp, rfl⟩ := List.mem_map.mp hq
   exact hexGroup_good p (h p hp)
 
+theorem isHexStr_eq (p : Str) : isHexStr 1 4 p = isHexGroup p := rfl
+
+theorem hexSegs_hex4 (ps : List Str) (h : ∀ p ∈ ps, isHexGroup p = true) : (hexSegs ps).Hex4 := by
+  intro q hq
+  obtain ⟨p, hp, rfl⟩ := List.mem_map.mp hq
+  exact h p hp
+
+theorem nil_hex4 : Segs.Hex4 [] := by intro p hp; simp at hp
+
 /-! ### inversion of the field grammar -/
 
 theorem fieldVals_false : ∀ (ps : List Str) (vs : List Nat), fieldVals ps false = some vs →
@@ -280,35 +289,35 @@ theorem ip4_of_quad (q : Str) (b0 b1 b2 b3 : UInt8) (h : inetAton q = .ok [b0, b
 /-- one side of `::` (or a whole text without `::`) that denotes `vs`: either hex fields only, or hex fields followed by
     a dotted quad -/
 inductive Side (t : Str) (vs : List Nat) : Prop
-  | hex (ps : Segs) (hg : ps.Good) (ht : t = joinWith ':' ps.strs) (hv : vs = ps.vals)
-  | quad (ps : Segs) (q : Str) (b0 b1 b2 b3 : UInt8) (hg : ps.Good) (ht : t = pre ps.strs ++ q)
+  | hex (ps : Segs) (hg : ps.Good) (hx : ps.Hex4) (ht : t = joinWith ':' ps.strs) (hv : vs = ps.vals)
+  | quad (ps : Segs) (q : Str) (b0 b1 b2 b3 : UInt8) (hg : ps.Good) (hx : ps.Hex4) (ht : t = pre ps.strs ++ q)
       (hq : inetAton q = .ok [b0, b1, b2, b3]) (hdot : '.' ∈ q) (hcol : ':' ∉ q)
       (hv : vs = ps.vals ++ [b0.toNat * 256 + b1.toNat, b2.toNat * 256 + b3.toNat])
 
 theorem side_of_listVals (t : Str) (v4 : Bool) (vs : List Nat) (h : listVals t v4 = some vs) :
-    Side t vs ∧ (v4 = false → ∃ ps : Segs, ps.Good ∧ t = joinWith ':' ps.strs ∧ vs = ps.vals) := by
+    Side t vs ∧ (v4 = false → ∃ ps : Segs, ps.Good ∧ ps.Hex4 ∧ t = joinWith ':' ps.strs ∧ vs = ps.vals) := by
   unfold listVals at h
   by_cases he : t.isEmpty = true
   · rw [if_pos he] at h
     have ht : t = [] := by simpa using he
     simp only [Option.some.injEq] at h
-    have : Side t vs := .hex [] (by intro p hp; simp at hp) (by rw [ht]; rfl) (by rw [← h]; rfl)
-    exact ⟨this, fun _ => ⟨[], by intro p hp; simp at hp, by rw [ht]; rfl, by rw [← h]; rfl⟩⟩
+    have : Side t vs := .hex [] (by intro p hp; simp at hp) nil_hex4 (by rw [ht]; rfl) (by rw [← h]; rfl)
+    exact ⟨this, fun _ => ⟨[], by intro p hp; simp at hp, nil_hex4, by rw [ht]; rfl, by rw [← h]; rfl⟩⟩
   · rw [if_neg he] at h
     have hj := joinWith_splitOn ':' t
     cases v4 with
     | false =>
       obtain ⟨h1, h2⟩ := fieldVals_false _ vs h
-      have hs : ∃ ps : Segs, ps.Good ∧ t = joinWith ':' ps.strs ∧ vs = ps.vals :=
-        ⟨hexSegs (splitOn ':' t), hexSegs_good _ h1, by rw [hexSegs_strs, hj], by rw [hexSegs_vals, h2]⟩
-      obtain ⟨ps, a, b, c⟩ := hs
-      exact ⟨.hex ps a b c, fun _ => ⟨ps, a, b, c⟩⟩
+      have hs : ∃ ps : Segs, ps.Good ∧ ps.Hex4 ∧ t = joinWith ':' ps.strs ∧ vs = ps.vals :=
+        ⟨hexSegs (splitOn ':' t), hexSegs_good _ h1, hexSegs_hex4 _ h1, by rw [hexSegs_strs, hj], by rw [hexSegs_vals, h2]⟩
+      obtain ⟨ps, a, x, b, c⟩ := hs
+      exact ⟨.hex ps a x b c, fun _ => ⟨ps, a, x, b, c⟩⟩
     | true =>
       refine ⟨?_, fun hf => by simp at hf⟩
       rcases fieldVals_true _ vs h with ⟨h1, h2⟩ | ⟨init, q, g, e, h1, hq, h2⟩
-      · exact .hex (hexSegs (splitOn ':' t)) (hexSegs_good _ h1) (by rw [hexSegs_strs, hj]) (by rw [hexSegs_vals, h2])
+      · exact .hex (hexSegs (splitOn ':' t)) (hexSegs_good _ h1) (hexSegs_hex4 _ h1) (by rw [hexSegs_strs, hj]) (by rw [hexSegs_vals, h2])
       · obtain ⟨b0, b1, b2, b3, hq', hg, hdot, hcol⟩ := quadGroups_some q g hq
-        refine .quad (hexSegs init) q b0 b1 b2 b3 (hexSegs_good _ h1) ?_ hq' hdot hcol (by rw [hexSegs_vals, h2, hg])
+        refine .quad (hexSegs init) q b0 b1 b2 b3 (hexSegs_good _ h1) (hexSegs_hex4 _ h1) ?_ hq' hdot hcol (by rw [hexSegs_vals, h2, hg])
         rw [hexSegs_strs, ← hj, e]
         unfold pre
         by_cases hi : init = []
@@ -344,39 +353,31 @@ theorem parseGroups_dc' (L R : Segs) (hL : L.Good) (hR : R.Good) :
     simp [Segs.vals, Functor.map, Except.map]
   · rw [if_neg hc, if_pos (by omega)]
 
-theorem Segs.Good.join_nil {L : Segs} (h : L.Good) : joinWith ':' L.strs = [] ↔ L = [] := by
-  constructor
-  · intro hj
-    cases L with
-    | nil => rfl
-    | cons p t =>
-      exfalso
-      have hp := (h p (by simp)).1.ne
-      cases t with
-      | nil => simp [Segs.strs, joinWith] at hj; exact hp hj
-      | cons p' t' =>
-        simp only [Segs.strs, List.map_cons] at hj
-        rw [joinWith_cons_cons] at hj
-        exact hp (List.append_eq_nil_iff.mp hj).1
-  · intro e; subst e; rfl
-
 /-! ### text with a dotted-quad tail -/
+
+theorem parse6With_quad (pg : Str → Except Err Bytes) (Q q : Str) (b0 b1 b2 b3 : UInt8) (hQ : '.' ∉ Q)
+    (hq : inetAton q = .ok [b0, b1, b2, b3]) (hdot : '.' ∈ q) (hcol : ':' ∉ q) :
+    parse6With pg (Q ++ ':' :: q) =
+      match pg (Q ++ [':', '0', ':', '0']) with
+      | .ok v => .ok (v.take (v.length - 4) ++ [b0, b1, b2, b3])
+      | .error e => .error e := by
+  obtain ⟨ip, hip, hraw⟩ := ip4_of_quad q b0 b1 b2 b3 hq
+  unfold parse6With
+  have hd : has '.' (Q ++ ':' :: q) = true := by rw [has_true_iff]; simp [hdot]
+  rw [if_pos hd, rsplit1_append ':' Q q hcol]
+  simp only
+  rw [if_neg (by rw [(has_false_iff '.' Q).mpr hQ]; simp), if_neg (by rw [(has_false_iff ':' q).mpr hcol]; simp)]
+  cases pg (Q ++ [':', '0', ':', '0']) with
+  | error e => rfl
+  | ok v => simp only [bind, Except.bind, hip, pure, Except.pure, hraw]
 
 theorem parse6_quad (Q q : Str) (b0 b1 b2 b3 : UInt8) (hQ : '.' ∉ Q) (hq : inetAton q = .ok [b0, b1, b2, b3])
     (hdot : '.' ∈ q) (hcol : ':' ∉ q) :
     parse6 (Q ++ ':' :: q) =
       match parseGroups (Q ++ [':', '0', ':', '0']) with
       | .ok v => .ok (v.take (v.length - 4) ++ [b0, b1, b2, b3])
-      | .error e => .error e := by
-  obtain ⟨ip, hip, hraw⟩ := ip4_of_quad q b0 b1 b2 b3 hq
-  unfold parse6 parse6With
-  have hd : has '.' (Q ++ ':' :: q) = true := by rw [has_true_iff]; simp [hdot]
-  rw [if_pos hd, rsplit1_append ':' Q q hcol]
-  simp only
-  rw [if_neg (by rw [(has_false_iff '.' Q).mpr hQ]; simp), if_neg (by rw [(has_false_iff ':' q).mpr hcol]; simp)]
-  cases parseGroups (Q ++ [':', '0', ':', '0']) with
-  | error e => rfl
-  | ok v => simp only [bind, Except.bind, hip, pure, Except.pure, hraw]
+      | .error e => .error e :=
+  parse6With_quad parseGroups Q q b0 b1 b2 b3 hQ hq hdot hcol
 
 theorem divmod256 (a b : Nat) (hb : b < 256) : (a * 256 + b) / 256 = a ∧ (a * 256 + b) % 256 = b := by omega
 
@@ -408,11 +409,11 @@ theorem good_zero2 {ps : Segs} (h : ps.Good) : (ps ++ [(0, ['0']), (0, ['0'])]).
 /-- full form without `::` -/
 theorem parse6_full (s : Str) (gs : List Nat) (hs : Side s gs) (hl : gs.length = 8) : parse6 s = .ok (groupBytes gs) := by
   cases hs with
-  | hex ps hg ht hv =>
+  | hex ps hg hx ht hv =>
     have hlen : ps.length = 8 := by rw [hv] at hl; simpa [Segs.vals] using hl
     unfold parse6 parse6With
     rw [if_neg (by rw [ht, (has_false_iff '.' _).mpr hg.no_dot]; simp), ht, parseGroups_plain ps hg hlen, hv]
-  | quad ps q b0 b1 b2 b3 hg ht hq hdot hcol hv =>
+  | quad ps q b0 b1 b2 b3 hg hx ht hq hdot hcol hv =>
     have hlen : ps.length = 6 := by rw [hv] at hl; simp [Segs.vals] at hl; omega
     have hne : ps.strs ≠ [] := by intro e; have : ps.strs.length = 0 := by rw [e]; rfl
                                   simp [Segs.strs, hlen] at this
@@ -436,7 +437,7 @@ theorem parse6_dc (l r : Str) (a b : List Nat) (L : Segs) (hL : L.Good) (hl : l 
   have hle : l.isEmpty = true ↔ L.length = 0 := by
     rw [hl, List.isEmpty_iff, hL.join_nil]; exact List.length_eq_zero_iff.symm
   cases hr with
-  | hex R hg ht hv =>
+  | hex R hg hxR ht hv =>
     have hbR : b.length = R.length := by rw [hv]; simp [Segs.vals]
     have hre : r.isEmpty = true ↔ R.length = 0 := by
       rw [ht, List.isEmpty_iff, hg.join_nil]; exact List.length_eq_zero_iff.symm
@@ -461,7 +462,7 @@ theorem parse6_dc (l r : Str) (a b : List Nat) (L : Segs) (hL : L.Good) (hl : l 
       simp only [Bool.and_eq_true, Bool.or_eq_true, beq_iff_eq] at hu
       rw [hle, hre] at hu
       rw [if_pos (by omega)]
-  | quad R q b0 b1 b2 b3 hg ht hq hdot hcol hv =>
+  | quad R q b0 b1 b2 b3 hg hxR ht hq hdot hcol hv =>
     have hbR : b.length = R.length + 2 := by rw [hv]; simp [Segs.vals]
     have hrne : r.isEmpty = false := by
       rw [ht]
@@ -563,7 +564,7 @@ theorem parse6_denote (s : Str) (bs : Bytes) (h : denote6 s = some bs) :
     simp only at h ⊢
     obtain ⟨a, b, hva, hvb, hab, hbs⟩ := denote6_dc_inv _ _ bs h
     simp only [hva, hvb]
-    obtain ⟨L, hL, hl, ha⟩ := (side_of_listVals l false a hva).2 rfl
+    obtain ⟨L, hL, _, hl, ha⟩ := (side_of_listVals l false a hva).2 rfl
     rw [splitDC_eq s l r hd, hbs]
     exact parse6_dc l r a b L hL hl ha (side_of_listVals r true b hvb).1 hab
 
